@@ -24,6 +24,9 @@ func runC01(r *Run, p *Prog) {
 	siblingRules(r, p, "C17", []string{"D1", "D2", "D3"}, "R6")
 	// R7: dispatch on one connection is independent of other connections only if the Service mutex is never held across a handler or connection I/O
 	siblingRules(r, p, "C10", []string{"S6"}, "R7")
+	// R8: a handler error ends the connection only if every function between the dispatcher and the connection loop
+	// hands the result on unchanged (an error swallowed for a oneway call keeps the connection dispatching)
+	siblingRules(r, p, "C04", []string{"T7"}, "R8")
 	ro := DiscoverRoles(p)
 	T, cg := ro.T, ro.CG
 	if len(ro.ConnLoop) == 0 || ro.Handle == nil {
